@@ -301,7 +301,7 @@ class RDGridSpace :
         """
         
         if isnumber(position) :
-            return (int(position)>=0 or int(position)<self.size())
+            return (int(position)>=0 and int(position)<self.size())
         elif isarray(position) : 
             return (int(position[0])>=0 and
                     int(position[0])<self.w and
